@@ -28,6 +28,7 @@ func init() {
 	})
 	ruleText["R08.1"] = "a run-time closure (func literal whose first parameter is *frame, and everything nested in it) never assigns, increments, element- or field-stores, copies into, deletes from or appends to a variable captured from the enclosing generator function, directly or through a local alias"
 	ruleText["R08.2"] = "the frame passed to runCfg is the result of newFrame or (*frame).clone executed in the same function invocation (or the root frame in (*Interpreter).run), never a captured or parameter frame"
+	ruleText["R08.4"] = "every map stored into Interpreter.binPkg[k] is created (make/literal) by the storing function, never the map received through Use: independent interpreters must not share a symbol table that fixStdlib later overrides per interpreter"
 	ruleText["R08.3"] = "every Lock/RLock of a sync.Mutex/RWMutex field is followed by the matching Unlock/RUnlock of the same receiver on every control-flow path to a function exit (or a deferred unlock is registered); guarded fields are accessed only while their mutex is held"
 }
 
@@ -270,6 +271,7 @@ func runC08(c *Config, r *Report) {
 	c08R1(ic, r)
 	c08R2(ic, r)
 	c08R3(ic, r)
+	checkBinPkgOwnership(ic, r, "R08.4")
 	if c.Tier == "thorough" {
 		ic386, err := loadInterp(c, false, "GOARCH=386")
 		if err != nil {
